@@ -270,6 +270,37 @@ func main() {
 				}
 			}
 		}
+		// the same KeyID text under different critical options (and back): the derived type must follow the option every
+		// time, whatever was derived for that KeyID before
+		if r.Want("same-keyid") {
+			i := 0
+			for fl := 0; fl < 16; fl++ {
+				for _, tp := range []int{0, 1, 2, 3} {
+					c := r.Case("same-keyid", i)
+					i++
+					if c == nil {
+						continue
+					}
+					base := attrs{FF: fl&1 != 0, HW: fl&2 != 0, Headless: fl&4 != 0, Nonce: fl&8 != 0, Touch: tp}
+					transID := gen.Ident(c.Rand, 10)
+					for _, opt := range []int{3, 0, 3, 2, 1, 3, 4, 0} {
+						a := base
+						a.Opt = opt
+						cert := mkCert(a, transID, []string{"p"}, "u")
+						r.Eval(1)
+						if g := int(certutil.GetType(cert)); g != refType(a) {
+							r.Violation(c, fmt.Sprintf("type-depends-on-earlier-derivation:opt=%d", opt), fmt.Sprintf("same KeyID %q, option state %d: type %d, expected %d", cert.KeyId, opt, g, refType(a)), a)
+							break
+						}
+						if l, err := certutil.Label(cert); (err == nil) != (refType(a) != tUnknown) || (err == nil && l != refName[refType(a)]+"SSH-"+transID) {
+							r.Violation(c, "label-depends-on-earlier-derivation", fmt.Sprintf("label %q err=%v", l, err), a)
+							break
+						}
+					}
+					r.Count("same-KeyID option sequences", 1)
+				}
+			}
+		}
 		// undecodable KeyIDs and nil certificate
 		if r.Want("undecodable") {
 			bad := []string{"", "bad keyID", "null", "{}", "[]", `{"ver":1}`, `{"prins":["a"],"transID":"t","reqUser":"u","reqIP":"i","reqHost":"h","isFirefighter":false,"isHWKey":true,"isHeadless":false,"isNonce":false,"touchPolicy":1,"ver":2}`,
